@@ -29,13 +29,31 @@ def gen_text(rng: random.Random) -> str:
     return rng.choice(ALPHABET)
 
 
+class EqToken(ts_lib.Token):
+    """A token that compares by content, as the ledger's RawTokenModel does (RULE + raw_text): two distinct
+    token objects with the same text are `==`. The store must work by identity throughout; every comparison in
+    this harness is by `is` / id()."""
+
+    def __eq__(self, other):
+        return isinstance(other, EqToken) and self.raw_text == other.raw_text
+
+    def __hash__(self):
+        return hash(('EqToken', self.raw_text))
+
+
+def use_eq_tokens(lf: int, texts: list[str], ops: list) -> bool:
+    """Half of the histories (a function of the history itself, so a replay makes the same choice)."""
+    return (lf + len(texts) + sum(len(t) for t in texts)) % 2 == 0    # independent of how many ops are replayed
+
+
 class Impl:
     """One implementation-side execution: tokens are numbered 1..n."""
 
-    def __init__(self, lf: int, texts: list[str]):
+    def __init__(self, lf: int, texts: list[str], eq_tokens: bool = False):
         set_load_factor(lf)
         self.lf = lf
-        self.toks = [None] + [ts_lib.Token(t) for t in texts]
+        cls = EqToken if eq_tokens else ts_lib.Token
+        self.toks = [None] + [cls(t) for t in texts]
         self.ids = {id(t): i for i, t in enumerate(self.toks) if t is not None}
         self.store: Optional[ts_lib.TokenStore] = ts_lib.TokenStore()
         self.src_list = None
@@ -337,9 +355,53 @@ def gen_directed(rng: random.Random, lf: int):
     return texts, ops
 
 
+def gen_directed_breaks(rng: random.Random, lf: int):
+    """Directed: the caches of a block whose ONLY line-break token loses its break, followed by an insertion at
+    the very start of that block (the position where _splice's in-place fast path is taken iff
+    last_newline_index >= 0 = end_j). The block is not the last one and the tokens of the following blocks
+    have no line breaks, so their reported columns depend on that block's cached trailing column.
+    Variants: the break token at index 0 / in the middle / at the end of the block; the insertion as
+    insert_before(first token of the block), insert_after(last token of the previous block) or
+    insert_after(None); a second break removal / re-creation afterwards."""
+    k = rng.choice([2, 3, 4])
+    n_live = k * lf                               # from_tokens makes k blocks of exactly lf tokens
+    spare = lf + 3
+    plain = ['a', 'cd', 'gh ', 'x', '', 'pq']
+    texts = [rng.choice(plain) for _ in range(n_live + spare)]
+    live = list(range(1, n_live + 1))
+    free = list(range(n_live + 1, n_live + spare + 1))
+    blk = rng.randrange(0, k - 1)                 # a non-last block
+    pos = rng.choice([0, lf - 1, rng.randrange(lf), max(1, lf // 2)])
+    brk = live[blk * lf + pos]
+    texts[brk - 1] = rng.choice(['b\n', 'e\nf', '\n', 'x\ny\nz'])
+    if blk > 0 and rng.random() < 0.5:            # some lines before, so that line numbers are not all 0
+        texts[live[rng.randrange(blk * lf)] - 1] = 'u\nv'
+    ops = [('from_tokens', list(live))]
+    ops.append(('set_text', brk, rng.choice(['b', 'ef', '', 'xyz'])))          # the break disappears
+    first = live[blk * lf]
+    new = [free.pop() for _ in range(rng.choice([1, 1, 2]))]
+    c = rng.random()
+    if c < 0.6:
+        ops.append(('ins_before', first, new))
+        at = blk * lf
+    elif blk > 0:
+        ops.append(('ins_after', live[blk * lf - 1], new))
+        at = blk * lf
+    else:
+        ops.append(('ins_after', None, new))
+        at = 0
+    live[at:at] = new
+    if rng.random() < 0.5:                        # and once more: re-create a break elsewhere in the block, remove it
+        t2 = live[blk * lf + rng.randrange(1, lf)] if lf > 1 else brk
+        ops.append(('set_text', t2, 'm\nn'))
+        ops.append(('set_text', t2, 'mn'))
+        ops.append(('ins_before', live[blk * lf], [free.pop()]))
+    return texts, ops
+
+
 def run_history(lf: int, texts: list[str], ops: list) -> tuple[list[tuple[Any, dict]], list[dict]]:
     """Runs on the implementation; returns (steps with dumps, monitor failures)."""
-    impl = Impl(lf, texts)
+    impl = Impl(lf, texts, eq_tokens=use_eq_tokens(lf, texts, ops))
     steps = []
     fails: list[dict] = []
     ref: list[int] = []                      # plain list reference (C07 monitor)
